@@ -372,6 +372,10 @@ def _string_escape_shape(s: RaiseSite) -> Optional[str]:
                 loop_test = t
             if isinstance(t.ops[0], ast.Eq) and same(t.left, n) and isinstance(t.comparators[0], ast.Constant) and t.comparators[0].value == "\\":
                 bs_test = True
+    for t, truth in raw:
+        # else-branch of `if s[i] != '\\'`
+        if (not truth) and isinstance(t, ast.Compare) and len(t.ops) == 1 and isinstance(t.ops[0], ast.NotEq) and same(t.left, n) and isinstance(t.comparators[0], ast.Constant) and t.comparators[0].value == "\\":
+            bs_test = True
     if loop_test is None or not bs_test or not isinstance(n.slice, ast.Name):
         return None
     incs = assignments_between(fn, n.slice.id, _end(loop_test), n)
@@ -431,9 +435,15 @@ def _int_regex_shape(cg: CG, s: RaiseSite) -> Optional[str]:
         base = call.args[1].value
     k = 0
     if isinstance(arg, ast.Subscript) and isinstance(arg.slice, ast.Slice) and src_of(arg.value) == "t.value":
-        if arg.slice.upper is not None or arg.slice.step is not None or not isinstance(arg.slice.lower, ast.Constant):
+        lo_ = arg.slice.lower
+        if arg.slice.upper is not None or arg.slice.step is not None:
             return None
-        k = arg.slice.lower.value
+        if isinstance(lo_, ast.Constant) and isinstance(lo_.value, int):
+            k = lo_.value
+        elif isinstance(lo_, ast.Call) and isinstance(lo_.func, ast.Name) and lo_.func.id == "len" and len(lo_.args) == 1 and isinstance(lo_.args[0], ast.Constant) and isinstance(lo_.args[0].value, str):
+            k = len(lo_.args[0].value)
+        else:
+            return None
     elif src_of(arg) != "t.value":
         return None
     try:
@@ -563,7 +573,11 @@ def a1(repo: Repo) -> RuleResult:
                 continue
             reported.add(k)
             path = cg.path_to(esc, entry, key)
-            if _tainted(s) or s.exc == "NotImplementedError":
+            in_lexer_rule = s.unit.fn.node.name.startswith("t_") and ast.get_docstring(s.unit.fn.node, clean=False) is not None and s.kind in ("int", "subscript")
+            if in_lexer_rule:
+                # the token regex constrains the text in ways only the enumerated shapes understand
+                res.unsure(f"A1: {s.exc} at {s.file}:{s.line} {s.unit.fn.qual} `{short(s.detail, 80)}`: the operand is token text matched by the rule's regex; the relation between regex and operation is not one of the recognised shapes")
+            elif _tainted(s) or s.exc == "NotImplementedError":
                 wit = {
                     "div": "a zero divisor written in the schema",
                     "subscript": "an empty collection / out-of-range index the grammar permits",
@@ -1378,6 +1392,12 @@ def a9(repo: Repo) -> RuleResult:
 # --------------------------------------------------------------------------
 
 
+def show_name_startswith(p: Any, name: str) -> bool:
+    from .normal import show
+
+    return show(p).startswith(name)
+
+
 @rule("A11", "every lint rule is registered, targets a supported type, and cites the definition it checked")
 def a11(repo: Repo) -> RuleResult:
     res = RuleResult("A11", floor=8)
@@ -1437,10 +1457,49 @@ def a11(repo: Repo) -> RuleResult:
         res.inst(rule="Linter.lint", text=short(txt, 160))
         if "recursive=True" not in txt or "bound=proto" not in txt:
             res.bad(Finding("A11", lm.rel, lf.node.lineno, "Linter.lint", "", "definitions are not collected with recursive=True, bound=proto: nested definitions are skipped or imported files are linted under the wrong file", tag="lint:filter"))
-        incs = [n for n in ast.walk(lf.node) if isinstance(n, ast.AugAssign) and src_of(n.target) == "warning_count"]
-        ok = len(incs) == 1 and any(truth and src_of(t) == "w is not None" for t, truth in facts_at(incs[0], lf.node)) and isinstance(incs[0].value, ast.Constant) and incs[0].value.value == 1
-        if not ok:
-            res.bad(Finding("A11", lm.rel, lf.node.lineno, "Linter.lint", "", "the warning count is not incremented exactly once per warning produced", witness="check-only exit status is wrong", tag="lint:count"))
-        if not any(isinstance(n, ast.Return) and src_of(n.value) == "warning_count" for n in ast.walk(lf.node)):
+        # the returned counter grows by one exactly on the loop paths that emit a warning
+        from .normal import C as K, V
+        from .pyflow import PyFlow
+
+        rets = [n for n in ast.walk(lf.node) if isinstance(n, ast.Return) and isinstance(n.value, ast.Name)]
+        counter = rets[0].value.id if len(rets) == 1 else None
+        if counter is None:
             res.bad(Finding("A11", lm.rel, lf.node.lineno, "Linter.lint", "", "lint() does not return the warning count", tag="lint:return"))
+        else:
+            try:
+                flow = PyFlow(funcs={}, methods={k: v.node for k, v in linter.methods.items()}, havoc_on=(), inline_filter=lambda n_, f_: n_.startswith("_"))
+                leafs: List[Tuple[Any, str]] = []
+
+                def walk_loops(p_: Any) -> None:
+                    for e in p_.effects:
+                        if e.kind == "loop":
+                            subs = e.sub or []
+                            inner = [sp for sp in subs if any(x.kind == "loop" for x in sp.effects)]
+                            for sp in subs:
+                                if sp in inner:
+                                    walk_loops(sp)
+                                elif any(x.kind == "call" and x.name == "check" for x in sp.effects) or any(x.kind == "call" and x.name == "warning" for x in sp.effects):
+                                    leafs.append((sp, e.op))
+
+                top = flow.run(lf.node)
+                for p_ in top:
+                    walk_loops(p_)
+                ok = bool(leafs)
+                why = "no loop path calls rule.check" if not leafs else ""
+                for sp, tag in leafs:
+                    warned = any(x.kind == "call" and x.name == "warning" for x in sp.effects)
+                    before = V(counter + tag)
+                    after = sp.env.get(counter, before)
+                    delta = (after - before).const_value()
+                    if delta != (1 if warned else 0):
+                        ok = False
+                        why = f"on the path under {sp.guard_text()} (warning emitted: {warned}) the count changes by {delta}"
+                res.inst(rule="Linter.lint", count_paths=len(leafs), ok=ok)
+                if not ok:
+                    res.bad(Finding("A11", lm.rel, lf.node.lineno, "Linter.lint", why, "the warning count is not incremented exactly once per warning produced" + (f": {why}" if why else ""), witness="check-only exit status is wrong", tag="lint:count"))
+                for p_ in top:
+                    if p_.done == "return" and (p_.ret is None or not show_name_startswith(p_.ret, counter)):
+                        res.bad(Finding("A11", lm.rel, lf.node.lineno, "Linter.lint", "", "lint() does not return the warning count", tag="lint:return"))
+            except Inconclusive as e:
+                res.unsure(f"A11: Linter.lint: {e}")
     return res
